@@ -382,6 +382,28 @@ func c01Stream3(env *core.Env) {
 	}
 }
 
-func c01Stream4(env *core.Env) {}
+func c01Stream4(env *core.Env) {
+	n := 0
+	if env.Mine(n) {
+		c18Fixed(env, true)
+		env.Cover("stream4/patch")
+	}
+	types := gen.ResourceTypes()
+	for k := 0; k < env.Size(1, 6); k++ {
+		for i, md := range types {
+			if env.Quick() && i%3 != 0 {
+				continue
+			}
+			c18Resource(env, string(md.Name()), env.Seed*977+uint64(k), k%2 == 1, true, &n)
+			env.Cover("stream4/patch")
+		}
+	}
+}
 
-func replayC01Patch(env *core.Env, a []json.RawMessage) {}
+func replayC01Patch(env *core.Env, a []json.RawMessage) {
+	var c c18Case
+	json.Unmarshal(a[0], &c)
+	c.Totality = true
+	defer env.In("patch", c)()
+	c18Run(env, c)
+}
